@@ -23,7 +23,7 @@ type wireEntry struct {
 
 type wireTable struct {
 	name    string
-	nested  map[string]bool   // pointer fields whose object is built by the reader and is part of the record
+	nested  map[string]bool // pointer fields whose object is built by the reader and is part of the record
 	entries []wireEntry
 	ignored map[string]string // writer slots that the reader must not consume, with the reason
 }
